@@ -10,7 +10,8 @@ def run(ctx):
         "secrets scanned for: every node's long-term private scalar, every node's share of every epoch, every deal share "
         "(obtained by decrypting the deals on the wire with the recipients' keys); private polynomial coefficients of the "
         "kyber DKG are not reachable and not scanned for",
-        "only honest runs: no complaint, hence no justification bundle (which reveals a dealer's sub-share by protocol design)",
+        "refusal paths are the ones the harness drives (wrong key / outsider / tampered / wrong member / wrong state / malformed / "
+        "unknown beacon id, listed in coverage.inventory.refusal_paths_driven); an error path behind another precondition is not reached",
         "control endpoints are called in-package (service methods), peer traffic goes through an in-memory DKG client and a "
         "wrapped protocol client; TLS / gRPC framing is not part of what is scanned",
         "file modes are observed under the umask the harness sets (022; walks also 002, 077, 000); ownership/ACLs are not checked",
